@@ -3,10 +3,13 @@ import U3.Lemmas.Retry
 /-!
 # C04 — retries respect every budget, spare non-idempotent requests, and terminate
 
-All statements are about `U3.Retry.runAttempts cfg r m script` — one `urlopen(method, url,
-retries=r)` call with its recursive calls, the network deciding the outcome of every attempt — for
-**every** `Retry` value `r` (any counters, also negative / `False`), every method string, every
-outcome script of any length, and both kinds of pool (`cfg.proxied`).  No statement is restricted:
+All statements are about `U3.Retry.runAttempts cfg r redirect q i script` — one `urlopen(method,
+url, body, retries=r, redirect=redirect)` call with its recursive calls (retries after errors,
+status retries, and the pool-level redirect branch), the network deciding the outcome of every
+attempt — for **every** `Retry` value `r` (any counters, also negative / `False`), both values of
+`redirect`, every request `q` (method string, body or not), every attempt offset `i`, every outcome
+script of any length (errors, replies, replies carrying a `Location`), and both kinds of pool
+(`cfg.proxied`); `urlopen` is the entry with `Retry.from_int` in front.  No statement is restricted:
 the former finding `proxy-read-reset-relabelled-proxyerror` is repaired in the code
 (`HTTPConnection.getresponse` keeps `has_connected_to_proxy` across the `close()` that `http.client`
 performs on `ConnectionError`), `C04_nonidempotent_not_resent` holds for direct and proxied pools
@@ -18,13 +21,13 @@ open U3 U3.Retry
 /-! ## budgets -/
 
 /-- attempts ≤ 1 + max(total, 0) whenever `total` is a number -/
-theorem C04_attempts_le_total (cfg : Cfg) (r : Retry) (m : Str) (script : List Outcome) (n : Int)
-    (ht : r.total = .num n) :
-    (runAttempts cfg r m script).attempts.length ≤ n.toNat + 1 := by
-  induction script generalizing r n with
+theorem C04_attempts_le_total (cfg : Cfg) (r : Retry) (rd : Bool) (q : Rq) (i : Nat)
+    (script : List Outcome) (n : Int) (ht : r.total = .num n) :
+    (runAttempts cfg r rd q i script).attempts.length ≤ n.toNat + 1 := by
+  induction script generalizing r n q i with
   | nil => simp [runAttempts]
   | cons o rest ih =>
-    cases run_cases cfg r m o rest with
+    cases run_cases cfg r rd q i o rest with
     | returned st ra ho hw h => simp [h, Run.stop]
     | raised x hw hi h => simp [h, Run.stop]
     | again r' hw hi h =>
@@ -32,34 +35,39 @@ theorem C04_attempts_le_total (cfg : Cfg) (r : Retry) (m : Str) (script : List O
       rw [ht] at htot
       have hn : 0 ≤ n - 1 :=
         Retry.nonneg_of_not_exhausted hex (by simp [Retry.counters, htot, Count.dec])
-      have := ih r' (n - 1) htot
+      have := ih r' (nextRq rd q i o) (i + 1) (n - 1) htot
       simp only [h, Run.cons, List.length_cons]
       omega
 
-example : (runAttempts ⟨false⟩ (Retry.ofTotal (.num 2)) GET
+example : (runAttempts ⟨false⟩ (Retry.ofTotal (.num 2)) true ⟨GET, 0, false⟩ 0
     [.connectError .timeout, .connectError .refused, .connectError .timeout, .response 200 none]).attempts.length = 3 := by
   decide
+/-- … redirect hops included: an error, a followed 302, a followed 303 use up `total = 2` -/
+example : (runAttempts ⟨false⟩ (Retry.ofTotal (.num 2)) true ⟨GET, 0, false⟩ 0
+    [.readError .reset, .located 302 none, .located 303 none, .response 200 none]).attempts.length = 3 := by
+  decide
 
-/-- per category: the attempts charged to `connect` / `read` / `status` / `other` after which
-another attempt was made never outnumber that counter (`False` pays for none).  `chargedTo` is the
-code's classification; `C04_direct_classification` says it is the natural one on direct pools.
-(A response with status 0 does not exist in HTTP; `increment` would not charge it.) -/
-theorem C04_category_budgets (cfg : Cfg) (r : Retry) (m : Str) (script : List Outcome) (c : Cat) (b : Nat)
-    (hb : (r.counter c).budget = some b) :
-    ((runAttempts cfg r m script).retried.filter
+/-- per category: the attempts charged to `connect` / `read` / `status` / `other` / `redirect` after
+which another attempt was made never outnumber that counter (`False` pays for none).  `chargedTo` is
+the code's classification; `C04_direct_classification` says it is the natural one on direct pools.
+(A response with status 0 does not exist in HTTP; `increment` would not charge it.)  For
+`c = .redirect` this is C05's pool-level clause: redirect hops ≤ the redirect budget. -/
+theorem C04_category_budgets (cfg : Cfg) (r : Retry) (rd : Bool) (q : Rq) (i : Nat) (script : List Outcome)
+    (c : Cat) (b : Nat) (hb : (r.counter c).budget = some b) :
+    ((runAttempts cfg r rd q i script).retried.filter
         (fun a => decide (chargedTo cfg a.outcome = some c))).length ≤ b := by
-  induction script generalizing r b with
+  induction script generalizing r b q i with
   | nil => simp [runAttempts, Run.retried]
   | cons o rest ih =>
-    cases run_cases cfg r m o rest with
+    cases run_cases cfg r rd q i o rest with
     | returned st ra ho hw h => simp [h, retried_stop]
-    | raised x hw hi h => simp [h, retried_stop _ _ (stopResult_ne_out r o x)]
+    | raised x hw hi h => simp [h, retried_stop _ _ _ (stopResult_ne_out r rd i o x)]
     | again r' hw hi h =>
       obtain ⟨-, hex, -, hcnt, -, -⟩ := Retry.increment_ok hi
-      rw [h, retried_cons _ _ _ (run_attempts_ne_nil cfg r' m rest)]
-      have hc := hcnt c
+      rw [h, retried_cons _ _ _ _ (run_attempts_ne_nil cfg r' rd _ _ rest)]
+      obtain ⟨hc1, hc2⟩ := hcnt c
       by_cases hcat : (eventOf cfg o).cat = some c
-      · simp only [hcat, if_true] at hc
+      · have hc := hc1 hcat
         have hmem := Retry.counter_mem r' c
         cases hrc : r.counter c with
         | none => simp [hrc, Count.budget] at hb
@@ -71,31 +79,40 @@ theorem C04_category_budgets (cfg : Cfg) (r : Retry) (m : Str) (script : List Ou
           rw [hrc] at hc hb
           simp only [Count.dec] at hc
           have hn : 0 ≤ n - 1 := Retry.nonneg_of_not_exhausted hex (by simpa [hc] using hmem)
-          have := ih r' (n - 1).toNat (by simp [hc, Count.budget])
+          have := ih r' (nextRq rd q i o) (i + 1) (n - 1).toNat (by simp [hc, Count.budget])
           simp only [chargedTo] at this
           simp only [Count.budget, Option.some.injEq] at hb
           simp only [List.filter_cons, chargedTo, hcat, decide_true, if_true, List.length_cons]
           omega
-      · simp only [hcat, if_false] at hc
-        have := ih r' b (by rw [hc]; exact hb)
+      · have := ih r' (nextRq rd q i o) (i + 1) b (by rw [hc2 hcat]; exact hb)
         simpa [List.filter_cons, chargedTo, hcat] using this
 
 example : (Retry.counter (Retry.ofTotal (.num 2)) .read).budget = none := by decide
 example : (Retry.counter { Retry.default with read := .num 1 } .read).budget = some 1 := by decide
+example : (Retry.counter { Retry.default with redirect := .num 1 } .redirect).budget = some 1 := by decide
 
-/-- on a direct pool the code charges every outcome to the counter the property names -/
+/-- on a direct pool the code charges every outcome to the counter the property names; a reply whose
+status is a redirect status and that carries a `Location` is charged to `redirect` — whether the
+redirect is followed or the same URL is asked again because the status is forcelisted -/
 theorem C04_direct_classification (o : Outcome) :
     chargedTo ⟨false⟩ o =
       match o with
       | .connectError _ => some .connect
       | .readError _ => some .read
       | .otherError => some .other
-      | .response st _ => if st != 0 then some .status else none := by
+      | .response st _ => if st != 0 then some .status else none
+      | .located st _ =>
+        if st ∈ Gen.Redirect.redirectStatuses then some .redirect
+        else if st != 0 then some .status else none := by
   cases o with
   | connectError k => cases k <;> rfl
   | readError k => cases k <;> rfl
   | otherError => rfl
   | response st ra => rfl
+  | located st ra =>
+    by_cases h : st ∈ Gen.Redirect.redirectStatuses
+    · simp [chargedTo, eventOf, respOf, Outcome.redirectLocation, h, Event.cat]
+    · simp [chargedTo, eventOf, respOf, Outcome.redirectLocation, h, Event.cat]
 
 /-- behind a proxy every kind of read error is charged to `read`, exactly as on a direct pool, and a
 failure to reach the proxy is still a connect error (the former finding
@@ -108,6 +125,7 @@ theorem C04_proxied_classification (o : Outcome) :
   | readError k => cases k <;> rfl
   | otherError => rfl
   | response st ra => rfl
+  | located st ra => rfl
 
 /-- the four read errors behind a proxy, spelled out (positive counterpart of the former
 `C04_proxied_reset_charged_other`) -/
@@ -116,101 +134,135 @@ theorem C04_proxied_reset_charged_read :
     chargedTo ⟨true⟩ (.readError .timeout) = some .read ∧ chargedTo ⟨true⟩ (.readError .garbage) = some .read := by
   decide
 
+/-- C05 at pool level: the redirects `urlopen` follows never outnumber the `redirect` budget of the
+policy in effect (and, being attempts, stay within `C04_attempts_le_total`) -/
+theorem C04_followed_le_redirect_budget (cfg : Cfg) (r : Retry) (rd : Bool) (q : Rq) (i : Nat)
+    (script : List Outcome) (b : Nat) (hb : r.redirect.budget = some b) :
+    ((runAttempts cfg r rd q i script).retried.filter (fun a => follows rd a.outcome)).length ≤ b := by
+  refine Nat.le_trans ?_ (C04_category_budgets cfg r rd q i script .redirect b hb)
+  rw [← List.countP_eq_length_filter, ← List.countP_eq_length_filter]
+  apply List.countP_mono_left
+  intro a _ ha
+  have hloc : a.outcome.redirectLocation = true := by
+    simp only [follows, Bool.and_eq_true] at ha
+    exact ha.2
+  cases ho : a.outcome with
+  | located st ra =>
+    rw [ho] at hloc
+    simp [chargedTo, eventOf, respOf, hloc, Event.cat]
+  | response st ra => rw [ho] at hloc; simp [Outcome.redirectLocation] at hloc
+  | connectError k => rw [ho] at hloc; simp [Outcome.redirectLocation] at hloc
+  | readError k => rw [ho] at hloc; simp [Outcome.redirectLocation] at hloc
+  | otherError => rw [ho] at hloc; simp [Outcome.redirectLocation] at hloc
+
+example : ({ Retry.default with redirect := .num 1 } : Retry).redirect.budget = some 1 := by decide
+example : ((runAttempts ⟨false⟩ { Retry.default with redirect := .num 1 } true ⟨GET, 0, false⟩ 0
+    [.located 302 none, .located 302 none, .response 200 none]).retried.filter
+      (fun a => follows true a.outcome)).length = 1 := by decide
+
 /-! ## non-idempotent requests -/
 
-/-- direct and proxied pools: a method outside `allowed_methods` is never sent again after an
-attempt that ended in a read error or in a response — that attempt is the last one.  (Full
-statement of Appendix E; until the repair of `proxy-read-reset-relabelled-proxyerror` it was
-proved only under `cfg.proxied = false`.) -/
-theorem C04_nonidempotent_not_resent (cfg : Cfg) (r : Retry) (m : Str)
-    (script : List Outcome) (hm : r.isMethodRetryable m = false) (i : Nat) (a : Attempt)
-    (hi : (runAttempts cfg r m script).attempts[i]? = some a) (ho : reachedServer a.outcome = true) :
-    (runAttempts cfg r m script).attempts.length = i + 1 := by
-  induction script generalizing r i with
-  | nil => simp [runAttempts] at hi
+/-- direct and proxied pools, with and without `redirect`: when the method an attempt was sent with
+is outside `allowed_methods` and the attempt ended in a read error or in a reply that `urlopen` does
+not follow as a redirect, that attempt is the last one — the request is never sent again.  (A
+followed redirect is a new request by design: 301/302/307/308 keep the method, 303 turns it into
+`GET`; the method of every attempt is recorded in the attempt.) -/
+theorem C04_nonidempotent_not_resent (cfg : Cfg) (r : Retry) (rd : Bool) (q : Rq) (i : Nat)
+    (script : List Outcome) (j : Nat) (a : Attempt)
+    (hj : (runAttempts cfg r rd q i script).attempts[j]? = some a)
+    (hm : r.isMethodRetryable a.rq.method = false) (ho : reachedServer rd a.outcome = true) :
+    (runAttempts cfg r rd q i script).attempts.length = j + 1 := by
+  induction script generalizing r j q i with
+  | nil => simp [runAttempts] at hj
   | cons o rest ih =>
-    cases run_cases cfg r m o rest with
+    cases run_cases cfg r rd q i o rest with
     | returned st ra ho' hw h =>
-      rw [h] at hi ⊢
-      cases i with
+      rw [h] at hj ⊢
+      cases j with
       | zero => simp [Run.stop]
-      | succ j => simp [Run.stop] at hi
+      | succ j => simp [Run.stop] at hj
     | raised x hw hi' h =>
-      rw [h] at hi ⊢
-      cases i with
+      rw [h] at hj ⊢
+      cases j with
       | zero => simp [Run.stop]
-      | succ j => simp [Run.stop] at hi
+      | succ j => simp [Run.stop] at hj
     | again r' hw hi' h =>
       obtain ⟨-, -, hsame, -, -, herr⟩ := Retry.increment_ok hi'
-      rw [h] at hi ⊢
-      cases i with
+      rw [h] at hj ⊢
+      cases j with
       | zero =>
-        simp only [Run.cons, List.getElem?_cons_zero, Option.some.injEq] at hi
-        subst hi
+        simp only [Run.cons, List.getElem?_cons_zero, Option.some.injEq] at hj
+        subst hj
         exfalso
-        cases o with
-        | response st ra =>
-          simp only [wants, Retry.isRetry, hm] at hw
+        simp only at hm ho
+        have hreply : ∀ st ra, respOf o = some ⟨st, ra⟩ → follows rd o = false → False := by
+          intro st ra hresp hf
+          simp only [wants, hf, hresp, Bool.false_or, Retry.isRetry, hm] at hw
           simp at hw
+        cases o with
+        | response st ra => exact hreply st ra rfl (by simp [follows, Outcome.redirectLocation])
+        | located st ra => exact hreply st ra rfl (by simpa [reachedServer] using ho)
         | readError k =>
           have hcat : errCat (translate cfg (.readError k)) = .read := by
             cases cfg with | mk p => cases p <;> cases k <;> rfl
           obtain ⟨-, hx⟩ := herr _ rfl
           obtain ⟨mm, hmm, hret⟩ := hx hcat
-          cases hmm
+          simp only [nextRq, respOf, Option.some.injEq] at hmm
+          subst hmm
           simp [hm] at hret
         | connectError k => simp [reachedServer] at ho
         | otherError => simp [reachedServer] at ho
       | succ j =>
-        simp only [Run.cons, List.getElem?_cons_succ] at hi
-        have := ih r' (by rw [Retry.isMethodRetryable_congr hsame]; exact hm) j hi
+        simp only [Run.cons, List.getElem?_cons_succ] at hj
+        have := ih r' (nextRq rd q i o) (i + 1) j hj (by rw [Retry.isMethodRetryable_congr hsame]; exact hm)
         simp [Run.cons, this]
 
 example : (Retry.ofTotal (.num 3)).isMethodRetryable POST = false := by decide
 
-example : (runAttempts ⟨true⟩ (Retry.ofTotal (.num 3)) POST [.readError .reset, .response 200 none]).attempts[0]? =
-    some ⟨.readError .reset, none⟩ := by decide
+example : (runAttempts ⟨true⟩ (Retry.ofTotal (.num 3)) true ⟨POST, 0, true⟩ 0
+    [.readError .reset, .response 200 none]).attempts[0]? = some ⟨⟨POST, 0, true⟩, .readError .reset, none⟩ := by decide
 
 /-- the script of the former finding `proxy-read-reset-relabelled-proxyerror` (`Retry(3)`, POST,
 first attempt reset — or EOF — while reading), now with the expected outcome: behind a proxy, as
 on a direct pool, the request goes on the wire once and `ProtocolError` is re-raised -/
 theorem C04_proxied_reset_not_resent :
     (Retry.ofTotal (.num 3)).isMethodRetryable POST = false ∧
-    (runAttempts ⟨true⟩ (Retry.ofTotal (.num 3)) POST [.readError .reset, .response 200 none]).outcomes
+    (runAttempts ⟨true⟩ (Retry.ofTotal (.num 3)) true ⟨POST, 0, true⟩ 0 [.readError .reset, .response 200 none]).outcomes
       = [.readError .reset] ∧
-    (runAttempts ⟨true⟩ (Retry.ofTotal (.num 3)) POST [.readError .reset, .response 200 none]).result
+    (runAttempts ⟨true⟩ (Retry.ofTotal (.num 3)) true ⟨POST, 0, true⟩ 0 [.readError .reset, .response 200 none]).result
       = .reraised (.plain .protocol) ∧
-    (runAttempts ⟨true⟩ (Retry.ofTotal (.num 3)) POST [.readError .eof, .response 200 none]).outcomes
+    (runAttempts ⟨true⟩ (Retry.ofTotal (.num 3)) true ⟨POST, 0, true⟩ 0 [.readError .eof, .response 200 none]).outcomes
       = [.readError .eof] ∧
-    (runAttempts ⟨true⟩ (Retry.ofTotal (.num 3)) POST [.readError .eof, .response 200 none]).result
+    (runAttempts ⟨true⟩ (Retry.ofTotal (.num 3)) true ⟨POST, 0, true⟩ 0 [.readError .eof, .response 200 none]).result
       = .reraised (.plain .protocol) ∧
-    (runAttempts ⟨false⟩ (Retry.ofTotal (.num 3)) POST [.readError .reset, .response 200 none]).outcomes
+    (runAttempts ⟨false⟩ (Retry.ofTotal (.num 3)) true ⟨POST, 0, true⟩ 0 [.readError .reset, .response 200 none]).outcomes
       = [.readError .reset] ∧
-    (runAttempts ⟨false⟩ (Retry.ofTotal (.num 3)) POST [.readError .reset, .response 200 none]).result
+    (runAttempts ⟨false⟩ (Retry.ofTotal (.num 3)) true ⟨POST, 0, true⟩ 0 [.readError .reset, .response 200 none]).result
       = .reraised (.plain .protocol) := by
   decide
 
 /-- second symptom of the former finding (`…/read-budget`): `Retry(read=0)` stops a GET from being
 retried after a reset behind a proxy -/
 theorem C04_proxied_reset_read_budget :
-    (runAttempts ⟨true⟩ { Retry.default with read := .num 0 } GET [.readError .reset, .response 200 none]).outcomes
-      = [.readError .reset] ∧
-    (runAttempts ⟨true⟩ { Retry.default with read := .num 0 } GET [.readError .reset, .response 200 none]).result
-      = .maxRetry (.error (.plain .protocol)) := by
+    (runAttempts ⟨true⟩ { Retry.default with read := .num 0 } true ⟨GET, 0, false⟩ 0
+      [.readError .reset, .response 200 none]).outcomes = [.readError .reset] ∧
+    (runAttempts ⟨true⟩ { Retry.default with read := .num 0 } true ⟨GET, 0, false⟩ 0
+      [.readError .reset, .response 200 none]).result = .maxRetry (.error (.plain .protocol)) := by
   decide
 
 /-! ## retries=False -/
 
 /-- `total is False`: the first error is re-raised (the translated exception itself, not
 `MaxRetryError`) after exactly one attempt, without sleeping -/
-theorem C04_false_reraises (cfg : Cfg) (r : Retry) (m : Str) (o : Outcome) (rest : List Outcome)
-    (ht : r.total = .disabled) (ho : o.isError = true) :
-    runAttempts cfg r m (o :: rest) = ⟨[⟨o, none⟩], .reraised (translate cfg o)⟩ := by
+theorem C04_false_reraises (cfg : Cfg) (r : Retry) (rd : Bool) (q : Rq) (i : Nat) (o : Outcome)
+    (rest : List Outcome) (ht : r.total = .disabled) (ho : o.isError = true) :
+    runAttempts cfg r rd q i (o :: rest) = ⟨[⟨q, o, none⟩], .reraised (translate cfg o)⟩ := by
   cases o with
   | response st ra => simp [Outcome.isError] at ho
-  | connectError k => simp [runAttempts, Retry.increment, ht, Run.stop]
-  | readError k => simp [runAttempts, Retry.increment, ht, Run.stop]
-  | otherError => simp [runAttempts, Retry.increment, ht, Run.stop]
+  | located st ra => simp [Outcome.isError] at ho
+  | connectError k => simp [runAttempts, onError, Retry.increment, ht, Run.stop]
+  | readError k => simp [runAttempts, onError, Retry.increment, ht, Run.stop]
+  | otherError => simp [runAttempts, onError, Retry.increment, ht, Run.stop]
 
 example : (Retry.fromInt .false).total = .disabled := by decide
 
@@ -218,22 +270,22 @@ example : (Retry.fromInt .false).total = .disabled := by decide
 
 /-- every attempt consumes one scripted outcome, and with a numeric `total` the loop ends by itself
 (a result other than "script exhausted") within `max(total, 0) + 1` attempts however long the
-script of failures is -/
-theorem C04_terminates (cfg : Cfg) (r : Retry) (m : Str) (script : List Outcome) :
-    (runAttempts cfg r m script).attempts.length ≤ script.length ∧
+script of failures and redirects is -/
+theorem C04_terminates (cfg : Cfg) (r : Retry) (rd : Bool) (q : Rq) (i : Nat) (script : List Outcome) :
+    (runAttempts cfg r rd q i script).attempts.length ≤ script.length ∧
     (∀ n : Int, r.total = .num n → n.toNat + 1 ≤ script.length →
-      (runAttempts cfg r m script).result ≠ .outOfScript) := by
-  induction script generalizing r with
+      (runAttempts cfg r rd q i script).result ≠ .outOfScript) := by
+  induction script generalizing r q i with
   | nil => exact ⟨by simp [runAttempts], by intro n _ h; simp at h⟩
   | cons o rest ih =>
-    cases run_cases cfg r m o rest with
+    cases run_cases cfg r rd q i o rest with
     | returned st ra ho hw h => simp [h, Run.stop]
     | raised x hw hi h =>
       simp only [h, Run.stop, List.length_cons, List.length_nil]
-      exact ⟨by omega, fun _ _ _ => stopResult_ne_out r o x⟩
+      exact ⟨by omega, fun _ _ _ => stopResult_ne_out r rd i o x⟩
     | again r' hw hi h =>
       obtain ⟨htot, hex, -, -, -, -⟩ := Retry.increment_ok hi
-      obtain ⟨ih1, ih2⟩ := ih r'
+      obtain ⟨ih1, ih2⟩ := ih r' (nextRq rd q i o) (i + 1)
       refine ⟨by simp only [h, Run.cons, List.length_cons]; omega, ?_⟩
       intro n hn hlen
       rw [hn] at htot
@@ -242,19 +294,38 @@ theorem C04_terminates (cfg : Cfg) (r : Retry) (m : Str) (script : List Outcome)
       simp only [h, Run.cons]
       exact ih2 (n - 1) htot (by simp only [List.length_cons] at hlen; omega)
 
+/-- the attempts are the script, in order: the `j`-th attempt got the `j`-th scripted outcome -/
+theorem C04_attempts_follow_script (cfg : Cfg) (r : Retry) (rd : Bool) (q : Rq) (i : Nat)
+    (script : List Outcome) :
+    (runAttempts cfg r rd q i script).outcomes =
+      script.take (runAttempts cfg r rd q i script).attempts.length := by
+  induction script generalizing r q i with
+  | nil => simp [runAttempts, Run.outcomes]
+  | cons o rest ih =>
+    cases run_cases cfg r rd q i o rest with
+    | returned st ra ho hw h => simp [h, Run.stop, Run.outcomes]
+    | raised x hw hi h => simp [h, Run.stop, Run.outcomes]
+    | again r' hw hi h =>
+      have := ih r' (nextRq rd q i o) (i + 1)
+      simp only [Run.outcomes] at this
+      simp only [h, Run.cons, Run.outcomes, List.map_cons, List.length_cons, List.take_succ_cons, this]
+
 /-! ## sleeps -/
 
 /-- every `time.sleep` argument is a positive backoff `≤ backoff_max`, or it is the `Retry-After`
-of the response just received and `respect_retry_after_header` is set; after an error it is always
-the former -/
-theorem C04_sleep_bounds (cfg : Cfg) (r : Retry) (m : Str) (script : List Outcome) (a : Attempt) (t : Int)
-    (ha : a ∈ (runAttempts cfg r m script).attempts) (hs : a.sleep = some t) :
+of the reply just received — and then `respect_retry_after_header` is set or the reply is a redirect
+that `urlopen` follows (`sleep_for_retry` in the redirect branch); after an error it is always the
+former -/
+theorem C04_sleep_bounds (cfg : Cfg) (r : Retry) (rd : Bool) (q : Rq) (i : Nat) (script : List Outcome)
+    (a : Attempt) (t : Int)
+    (ha : a ∈ (runAttempts cfg r rd q i script).attempts) (hs : a.sleep = some t) :
     (0 < t ∧ t ≤ r.backoffMax) ∨
-    (r.respectRetryAfter = true ∧ ∃ st n, a.outcome = .response st (some n) ∧ n ≠ 0 ∧ t = ticks * n) := by
-  induction script generalizing r with
+    ((r.respectRetryAfter = true ∨ follows rd a.outcome = true) ∧
+      ∃ st n, respOf a.outcome = some ⟨st, some n⟩ ∧ n ≠ 0 ∧ t = ticks * n) := by
+  induction script generalizing r q i with
   | nil => simp [runAttempts] at ha
   | cons o rest ih =>
-    cases run_cases cfg r m o rest with
+    cases run_cases cfg r rd q i o rest with
     | returned st ra ho hw h =>
       rw [h] at ha; simp only [Run.stop, List.mem_singleton] at ha; subst ha; simp at hs
     | raised x hw hi h =>
@@ -265,60 +336,99 @@ theorem C04_sleep_bounds (cfg : Cfg) (r : Retry) (m : Str) (script : List Outcom
       simp only [Run.cons, List.mem_cons] at ha
       rcases ha with rfl | ha
       · simp only at hs
-        rcases sleep_bound hs with hb | ⟨hrr, rs, n, hresp, hra, hn, ht⟩
-        · exact Or.inl (by rw [← hsame.backoffMax]; exact hb)
-        · right
-          refine ⟨by rw [← hsame.respectRetryAfter]; exact hrr, ?_⟩
-          cases o with
-          | response st ra =>
-            simp only [respOf, Option.some.injEq] at hresp
-            subst hresp
-            simp only at hra
-            subst hra
-            exact ⟨st, n, rfl, hn, ht⟩
-          | connectError k => simp [respOf] at hresp
-          | readError k => simp [respOf] at hresp
-          | otherError => simp [respOf] at hresp
-      · have := ih r' ha
+        have key : ∀ resp : Option Resp, r'.sleep resp = some t → respOf o = resp →
+            (0 < t ∧ t ≤ r.backoffMax) ∨
+            ((r.respectRetryAfter = true ∨ follows rd o = true) ∧
+              ∃ st n, respOf o = some ⟨st, some n⟩ ∧ n ≠ 0 ∧ t = ticks * n) := by
+          intro resp hsl hresp
+          rcases sleep_bound hsl with hb | ⟨hrr, rs, n, hrs, hra, hn, ht⟩
+          · exact Or.inl (by rw [← hsame.backoffMax]; exact hb)
+          · right
+            refine ⟨Or.inl (by rw [← hsame.respectRetryAfter]; exact hrr), rs.status, n, ?_, hn, ht⟩
+            rw [hresp, hrs]
+            cases rs with | mk s' ra' => simp only at hra; rw [hra]
+        simp only [stepSleep] at hs
+        obtain ⟨resp, hresp⟩ : ∃ resp, respOf o = resp := ⟨_, rfl⟩
+        cases resp with
+        | none => rw [hresp] at hs; exact key none hs hresp
+        | some rs =>
+          rw [hresp] at hs
+          simp only at hs
+          by_cases hf : follows rd o = true
+          · simp only [hf, if_true] at hs
+            right
+            refine ⟨Or.inr hf, rs.status, ?_⟩
+            show ∃ n, respOf o = some ⟨rs.status, some n⟩ ∧ n ≠ 0 ∧ t = ticks * n
+            rw [hresp]
+            unfold Retry.sleepForRetry at hs
+            cases rs with
+            | mk s' ra' =>
+              cases ra' with
+              | none => simp at hs
+              | some n =>
+                simp only at hs
+                split at hs
+                · rename_i h0
+                  injection hs with hs
+                  exact ⟨n, rfl, by simpa using h0, hs.symm⟩
+                · cases hs
+          · simp only [hf, Bool.false_eq_true, if_false] at hs
+            exact key (some rs) hs hresp
+      · have := ih r' (nextRq rd q i o) (i + 1) ha
         rw [hsame.backoffMax, hsame.respectRetryAfter] at this
         exact this
 
-example : ∃ a ∈ (runAttempts ⟨false⟩ { Retry.default with statusForcelist := [500], backoffFactor := 512 } GET
-    [.response 503 (some 7), .response 500 none, .response 200 none]).attempts, a.sleep = some (ticks * 7) := by
+example : ∃ a ∈ (runAttempts ⟨false⟩ { Retry.default with statusForcelist := [500], backoffFactor := 512 } true
+    ⟨GET, 0, false⟩ 0 [.response 503 (some 7), .response 500 none, .response 200 none]).attempts,
+    a.sleep = some (ticks * 7) := by
   decide
 
-/-! ## which statuses are retried -/
+/-! ## which replies are followed by another request -/
 
-/-- a response is followed by another attempt only if the method is retryable and the status is in
+/-- a reply is followed by another attempt only as a redirect that `urlopen` follows (`redirect=True`,
+a redirect status, a `Location`), or if the method is retryable and the status is in
 `status_forcelist`, or it is one of the generated `RETRY_AFTER_STATUS_CODES` carrying a
 `Retry-After` header while `respect_retry_after_header` is set -/
-theorem C04_retry_after_gate (cfg : Cfg) (r : Retry) (m : Str) (script : List Outcome) (a : Attempt)
-    (st : Nat) (ra : Option Nat)
-    (ha : a ∈ (runAttempts cfg r m script).retried) (ho : a.outcome = .response st ra) :
-    r.isMethodRetryable m = true ∧
-    (st ∈ r.statusForcelist ∨
-      (st ∈ Gen.retryAfterStatusCodes ∧ ra.isSome = true ∧ r.respectRetryAfter = true)) := by
-  induction script generalizing r with
+theorem C04_retry_after_gate (cfg : Cfg) (r : Retry) (rd : Bool) (q : Rq) (i : Nat) (script : List Outcome)
+    (a : Attempt) (st : Nat) (ra : Option Nat)
+    (ha : a ∈ (runAttempts cfg r rd q i script).retried) (ho : respOf a.outcome = some ⟨st, ra⟩) :
+    follows rd a.outcome = true ∨
+    (r.isMethodRetryable a.rq.method = true ∧
+      (st ∈ r.statusForcelist ∨
+        (st ∈ Gen.retryAfterStatusCodes ∧ ra.isSome = true ∧ r.respectRetryAfter = true))) := by
+  induction script generalizing r q i with
   | nil => simp [runAttempts, Run.retried] at ha
   | cons o rest ih =>
-    cases run_cases cfg r m o rest with
-    | returned st' ra' ho' hw h => rw [h, retried_stop _ _ (by simp)] at ha; simp at ha
-    | raised x hw hi h => rw [h, retried_stop _ _ (stopResult_ne_out r o x)] at ha; simp at ha
+    cases run_cases cfg r rd q i o rest with
+    | returned st' ra' ho' hw h => rw [h, retried_stop _ _ _ (by simp)] at ha; simp at ha
+    | raised x hw hi h => rw [h, retried_stop _ _ _ (stopResult_ne_out r rd i o x)] at ha; simp at ha
     | again r' hw hi h =>
       obtain ⟨-, -, hsame, -, -, -⟩ := Retry.increment_ok hi
-      rw [h, retried_cons _ _ _ (run_attempts_ne_nil cfg r' m rest)] at ha
+      rw [h, retried_cons _ _ _ _ (run_attempts_ne_nil cfg r' rd _ _ rest)] at ha
       rcases List.mem_cons.1 ha with rfl | ha
-      · simp only at ho
-        subst ho
-        simp only [wants] at hw
-        obtain ⟨h1, h2⟩ := isRetry_true hw
-        exact ⟨h1, h2.imp id fun ⟨a, b, c, _⟩ => ⟨a, b, c⟩⟩
-      · have := ih r' ha
+      · simp only at ho ⊢
+        by_cases hf : follows rd o = true
+        · exact Or.inl hf
+        · right
+          simp only [wants, hf, ho, Bool.false_or] at hw
+          obtain ⟨h1, h2⟩ := isRetry_true hw
+          exact ⟨h1, h2.imp id fun ⟨a, b, c, _⟩ => ⟨a, b, c⟩⟩
+      · have := ih r' (nextRq rd q i o) (i + 1) ha
         rw [Retry.isMethodRetryable_congr hsame, hsame.statusForcelist, hsame.respectRetryAfter] at this
         exact this
 
+example : (⟨⟨GET, 0, false⟩, .response 500 none, none⟩ : Attempt) ∈
+    (runAttempts ⟨false⟩ { Retry.default with statusForcelist := [500] } false ⟨GET, 0, false⟩ 0
+      [.response 500 none, .response 200 none]).retried := by decide
+
 /-- the generated table: only 413 / 429 / 503 can be retried on the strength of `Retry-After` -/
 theorem C04_retry_after_codes : ∀ c ∈ Gen.retryAfterStatusCodes, c ∈ [413, 429, 503] := by decide
+
+/-- the generated table: only 301 / 302 / 303 / 307 / 308 are redirects, and none of them is a
+`Retry-After` status -/
+theorem C04_redirect_statuses :
+    (∀ c ∈ Gen.Redirect.redirectStatuses, c ∈ [301, 302, 303, 307, 308]) ∧
+    (∀ c ∈ Gen.Redirect.redirectStatuses, c ∉ Gen.retryAfterStatusCodes) := by decide
 
 /-- the generated table: every default allowed method is idempotent (RFC 9110 §9.2.2) -/
 theorem C04_default_methods_idempotent :
@@ -335,79 +445,235 @@ theorem C04_default_policy :
     Retry.default.respectRetryAfter = true ∧ Retry.default.statusForcelist = [] := by
   decide
 
-/-! ## how exhaustion surfaces -/
+/-! ## redirect=False -/
 
-/-- the last attempt explains the result: `MaxRetryError` carries the (translated) error of the last
-attempt, or the `ResponseError` for the last response — and then `raise_on_status` is set; a returned
-response is the last response; a re-raised error is the last attempt's error -/
-theorem C04_exhaustion_surface (cfg : Cfg) (r : Retry) (m : Str) (script : List Outcome) :
-    (∀ c, (runAttempts cfg r m script).result = .maxRetry c →
-      ∃ a, (runAttempts cfg r m script).attempts.getLast? = some a ∧
-        c = Retry.Event.reason (eventOf cfg a.outcome) ∧
-        (a.outcome.isError = false → r.raiseOnStatus = true)) ∧
-    (∀ st, (runAttempts cfg r m script).result = .response st →
-      ∃ a ra, (runAttempts cfg r m script).attempts.getLast? = some a ∧ a.outcome = .response st ra) ∧
-    (∀ e, (runAttempts cfg r m script).result = .reraised e →
-      ∃ a, (runAttempts cfg r m script).attempts.getLast? = some a ∧ a.outcome.isError = true ∧
-        e = translate cfg a.outcome) := by
-  induction script generalizing r with
+/-- `redirect=False`, any policy (a `Retry` object with a redirect budget as well), any script: every
+attempt asks for the caller's own request — no `Location` is ever requested, the method and body are
+never rewritten, whatever errors were retried before — and a 3xx reply carrying a `Location` whose
+status is not forcelisted ends the call: it is the last attempt and it is the response returned. -/
+theorem C04_redirect_false_never_follows (cfg : Cfg) (r : Retry) (q : Rq) (i : Nat) (script : List Outcome) :
+    (∀ a ∈ (runAttempts cfg r false q i script).attempts, a.rq = q) ∧
+    (∀ j a st ra, (runAttempts cfg r false q i script).attempts[j]? = some a →
+      a.outcome = .located st ra → st ∈ Gen.Redirect.redirectStatuses → st ∉ r.statusForcelist →
+      (runAttempts cfg r false q i script).attempts.length = j + 1 ∧
+      (runAttempts cfg r false q i script).result = .response (i + j) st) := by
+  induction script generalizing r q i with
   | nil => simp [runAttempts]
   | cons o rest ih =>
-    cases run_cases cfg r m o rest with
+    have hnf : follows false o = false := by simp [follows]
+    cases run_cases cfg r false q i o rest with
     | returned st ra ho hw h =>
-      subst ho
+      rw [h]
+      refine ⟨by simp [Run.stop], ?_⟩
+      intro j a st' ra' hj hout _ _
+      cases j with
+      | zero =>
+        simp only [Run.stop, List.getElem?_cons_zero, Option.some.injEq] at hj
+        subst hj
+        simp only at hout
+        subst hout
+        simp only [respOf, Option.some.injEq, Resp.mk.injEq] at ho
+        simp [Run.stop, ho.1]
+      | succ j => simp [Run.stop] at hj
+    | raised x hw hi h =>
+      rw [h]
+      refine ⟨by simp [Run.stop], ?_⟩
+      intro j a st' ra' hj hout hred hnforce
+      cases j with
+      | zero =>
+        simp only [Run.stop, List.getElem?_cons_zero, Option.some.injEq] at hj
+        subst hj
+        simp only at hout
+        subst hout
+        exfalso
+        simp only [wants, hnf, respOf, Bool.false_or] at hw
+        rcases (isRetry_true hw).2 with hfl | ⟨hra, -⟩
+        · exact hnforce hfl
+        · exact C04_redirect_statuses.2 _ hred hra
+      | succ j => simp [Run.stop] at hj
+    | again r' hw hi h =>
+      obtain ⟨-, -, hsame, -, -, -⟩ := Retry.increment_ok hi
+      have hq : nextRq false q i o = q := by
+        simp only [nextRq, hnf]
+        split <;> simp
+      rw [hq] at h
+      obtain ⟨ih1, ih2⟩ := ih r' q (i + 1)
+      rw [h]
+      refine ⟨?_, ?_⟩
+      · intro a ha
+        simp only [Run.cons, List.mem_cons] at ha
+        rcases ha with rfl | ha
+        · rfl
+        · exact ih1 a ha
+      · intro j a st' ra' hj hout hred hnforce
+        cases j with
+        | zero =>
+          simp only [Run.cons, List.getElem?_cons_zero, Option.some.injEq] at hj
+          subst hj
+          simp only at hout
+          subst hout
+          exfalso
+          simp only [wants, hnf, respOf, Bool.false_or] at hw
+          rcases (isRetry_true hw).2 with hfl | ⟨hra, -⟩
+          · exact hnforce hfl
+          · exact C04_redirect_statuses.2 _ hred hra
+        | succ j =>
+          simp only [Run.cons, List.getElem?_cons_succ] at hj
+          obtain ⟨hl, hres⟩ := ih2 j a st' ra' hj hout hred (by rw [hsame.statusForcelist]; exact hnforce)
+          refine ⟨by simp [Run.cons, hl], ?_⟩
+          simp only [Run.cons, hres]
+          congr 1
+          omega
+
+/-- the family of the seeded defect: a read error that is retried, then a 302 — with a `Retry` object
+that *has* redirect budget and `redirect=False` the 302 is handed back after two requests -/
+example : (runAttempts ⟨false⟩ { Retry.default with redirect := .num 5 } false ⟨GET, 0, false⟩ 0
+    [.readError .reset, .located 302 none, .response 200 none]).attempts[1]? =
+      some ⟨⟨GET, 0, false⟩, .located 302 none, none⟩ := by decide
+example : (runAttempts ⟨false⟩ { Retry.default with redirect := .num 5 } false ⟨GET, 0, false⟩ 0
+    [.readError .reset, .located 302 none, .response 200 none]).result = .response 1 302 := by decide
+/-- … while `redirect=True` does follow it (so the theorem is about the flag, not the policy) -/
+example : (runAttempts ⟨false⟩ { Retry.default with redirect := .num 5 } true ⟨GET, 0, false⟩ 0
+    [.readError .reset, .located 302 none, .response 200 none]).result = .response 2 200 := by decide
+
+/-- the same through the entry point, for every way of giving the policy (`None`, `False`, an int,
+a `Retry`; any pool default): with `redirect=False` every attempt is the caller's request -/
+theorem C04_urlopen_redirect_false (cfg : Cfg) (dflt arg : Arg) (m : Str) (body : Bool) (script : List Outcome) :
+    ∀ a ∈ (urlopen cfg dflt arg false m body script).attempts, a.rq = ⟨m, 0, body⟩ := by
+  unfold urlopen
+  exact (C04_redirect_false_never_follows cfg _ _ 0 script).1
+
+/-- what a followed redirect asks for: consecutive attempts are linked by `nextRq` — the same request
+again after an error or a status retry; after a followed redirect the `Location` of that reply, with
+the method and body kept (301/302/307/308) or turned into a body-less `GET` (303) -/
+theorem C04_request_chain (cfg : Cfg) (r : Retry) (rd : Bool) (q : Rq) (i : Nat) (script : List Outcome)
+    (j : Nat) (a b : Attempt)
+    (ha : (runAttempts cfg r rd q i script).attempts[j]? = some a)
+    (hb : (runAttempts cfg r rd q i script).attempts[j + 1]? = some b) :
+    b.rq = nextRq rd a.rq (i + j) a.outcome := by
+  induction script generalizing r q i j with
+  | nil => simp [runAttempts] at ha
+  | cons o rest ih =>
+    cases run_cases cfg r rd q i o rest with
+    | returned st ra ho hw h => rw [h] at hb; simp [Run.stop] at hb
+    | raised x hw hi h => rw [h] at hb; simp [Run.stop] at hb
+    | again r' hw hi h =>
+      rw [h] at ha hb
+      simp only [Run.cons, List.getElem?_cons_succ] at hb
+      cases j with
+      | zero =>
+        simp only [Run.cons, List.getElem?_cons_zero, Option.some.injEq] at ha
+        subst ha
+        exact run_head_rq cfg r' rd _ _ rest b hb
+      | succ j =>
+        simp only [Run.cons, List.getElem?_cons_succ] at ha
+        have := ih r' (nextRq rd q i o) (i + 1) j ha hb
+        rw [this]
+        congr 1
+        omega
+
+/-- a followed 303 turns the follow-up into a body-less `GET` for the new location; every other
+followed redirect keeps method and body -/
+theorem C04_redirect_rewrite (q : Rq) (i st : Nat) (ra : Option Nat)
+    (h : st ∈ Gen.Redirect.redirectStatuses) :
+    nextRq true q i (.located st ra) =
+      if st = 303 then ⟨strGET, i + 1, false⟩ else ⟨q.method, i + 1, q.body⟩ := by
+  have hf : follows true (.located st ra) = true := by
+    simp [follows, Outcome.redirectLocation, h]
+  simp only [nextRq, respOf, hf, if_true, redirected]
+  by_cases h3 : st = 303 <;> simp [h3]
+
+example : (303 : Nat) ∈ Gen.Redirect.redirectStatuses := by decide
+example : (runAttempts ⟨false⟩ Retry.default true ⟨POST, 0, true⟩ 0
+    [.located 303 none, .response 200 none]).attempts[1]? =
+      some ⟨⟨strGET, 1, false⟩, .response 200 none, none⟩ := by decide
+example : (runAttempts ⟨false⟩ Retry.default true ⟨POST, 0, true⟩ 0
+    [.located 307 none, .response 200 none]).attempts[1]? =
+      some ⟨⟨POST, 1, true⟩, .response 200 none, none⟩ := by decide
+
+/-! ## how exhaustion surfaces, and which response the caller gets -/
+
+/-- the last attempt explains the result: `MaxRetryError` carries the (translated) error of the last
+attempt, or the `ResponseError` for the last reply — and then `raise_on_redirect` is set (the reply
+was a redirect `urlopen` wanted to follow) resp. `raise_on_status` is set (status retry); a returned
+response is the last reply; a re-raised error is the last attempt's error -/
+theorem C04_exhaustion_surface (cfg : Cfg) (r : Retry) (rd : Bool) (q : Rq) (i : Nat) (script : List Outcome) :
+    (∀ c, (runAttempts cfg r rd q i script).result = .maxRetry c →
+      ∃ a, (runAttempts cfg r rd q i script).attempts.getLast? = some a ∧
+        c = Retry.Event.reason (eventOf cfg a.outcome) ∧
+        (a.outcome.isError = false →
+          if follows rd a.outcome then r.raiseOnRedirect = true else r.raiseOnStatus = true)) ∧
+    (∀ k st, (runAttempts cfg r rd q i script).result = .response k st →
+      ∃ a ra, (runAttempts cfg r rd q i script).attempts.getLast? = some a ∧
+        respOf a.outcome = some ⟨st, ra⟩) ∧
+    (∀ e, (runAttempts cfg r rd q i script).result = .reraised e →
+      ∃ a, (runAttempts cfg r rd q i script).attempts.getLast? = some a ∧ a.outcome.isError = true ∧
+        e = translate cfg a.outcome) := by
+  induction script generalizing r q i with
+  | nil => simp [runAttempts]
+  | cons o rest ih =>
+    cases run_cases cfg r rd q i o rest with
+    | returned st ra ho hw h =>
       rw [h]
       refine ⟨by simp [Run.stop], ?_, by simp [Run.stop]⟩
-      intro st' hst
+      intro k st' hst
       simp only [Run.stop, Result.response.injEq] at hst
-      subst hst
-      exact ⟨⟨.response st ra, none⟩, ra, by simp [Run.stop], rfl⟩
+      obtain ⟨-, rfl⟩ := hst
+      exact ⟨⟨q, o, none⟩, ra, by simp [Run.stop], ho⟩
     | raised x hw hi h =>
       rw [h]
       simp only [Run.stop, List.getLast?_singleton, Option.some.injEq, exists_eq_left']
+      have hisErr : o.isError = false → ∃ rs, respOf o = some rs := by
+        cases o <;> simp [Outcome.isError, respOf]
       rcases Retry.increment_error hi with rfl | ⟨e, he, rfl⟩
-      · cases o with
-        | response st ra =>
-          simp only [stopResult]
-          split
-          · rename_i hros
+      · simp only [stopResult]
+        cases hresp : respOf o with
+        | none =>
+          refine ⟨?_, by simp, by simp⟩
+          intro c hc
+          simp only [Result.maxRetry.injEq] at hc
+          refine ⟨hc.symm, fun hne => ?_⟩
+          obtain ⟨rs, hrs⟩ := hisErr hne
+          simp [hresp] at hrs
+        | some rs =>
+          simp only
+          by_cases hcond : (if follows rd o = true then r.raiseOnRedirect else r.raiseOnStatus) = true
+          · simp only [hcond, if_true]
             refine ⟨?_, by simp, by simp⟩
             intro c hc
             simp only [Result.maxRetry.injEq] at hc
-            exact ⟨hc.symm, fun _ => hros⟩
-          · refine ⟨by simp, ?_, by simp⟩
-            intro st' hst
-            simp only [Result.response.injEq] at hst
-            exact ⟨_, ra, rfl, by rw [hst]⟩
-        | connectError k =>
-          simp only [stopResult]
-          exact ⟨fun c hc => ⟨by simpa using hc.symm, by simp [Outcome.isError]⟩, by simp, by simp⟩
-        | readError k =>
-          simp only [stopResult]
-          exact ⟨fun c hc => ⟨by simpa using hc.symm, by simp [Outcome.isError]⟩, by simp, by simp⟩
-        | otherError =>
-          simp only [stopResult]
-          exact ⟨fun c hc => ⟨by simpa using hc.symm, by simp [Outcome.isError]⟩, by simp, by simp⟩
+            refine ⟨hc.symm, fun _ => ?_⟩
+            by_cases hf : follows rd o = true
+            · simpa [hf] using hcond
+            · simpa [hf] using hcond
+          · simp only [hcond]
+            refine ⟨by simp, ?_, by simp⟩
+            intro k st' hst
+            cases hst
+            exact ⟨_, rs.retryAfter, rfl, hresp⟩
       · simp only [stopResult]
         refine ⟨by simp, by simp, ?_⟩
         intro e' he'
         simp only [Result.reraised.injEq] at he'
         subst he'
         cases o with
-        | response st ra => simp [eventOf] at he
-        | connectError k => simp only [eventOf, Event.error.injEq] at he; exact ⟨rfl, he.symm⟩
-        | readError k => simp only [eventOf, Event.error.injEq] at he; exact ⟨rfl, he.symm⟩
-        | otherError => simp only [eventOf, Event.error.injEq] at he; exact ⟨rfl, he.symm⟩
+        | response st ra => simp [eventOf, respOf] at he; split at he <;> cases he
+        | located st ra => simp [eventOf, respOf] at he; split at he <;> cases he
+        | connectError k => simp only [eventOf, respOf, Event.error.injEq] at he; exact ⟨rfl, he.symm⟩
+        | readError k => simp only [eventOf, respOf, Event.error.injEq] at he; exact ⟨rfl, he.symm⟩
+        | otherError => simp only [eventOf, respOf, Event.error.injEq] at he; exact ⟨rfl, he.symm⟩
     | again r' hw hi h =>
       obtain ⟨-, -, hsame, -, -, -⟩ := Retry.increment_ok hi
-      obtain ⟨ih1, ih2, ih3⟩ := ih r'
-      have hlast : ∀ res, (runAttempts cfg r' m rest).result = res → res ≠ .outOfScript →
-          (Run.cons o (r'.sleep (respOf o)) (runAttempts cfg r' m rest)).attempts.getLast?
-            = (runAttempts cfg r' m rest).attempts.getLast? := by
+      have hror := Retry.increment_raiseOnRedirect hi
+      obtain ⟨ih1, ih2, ih3⟩ := ih r' (nextRq rd q i o) (i + 1)
+      have hlast : ∀ res, (runAttempts cfg r' rd (nextRq rd q i o) (i + 1) rest).result = res →
+          res ≠ .outOfScript →
+          (Run.cons q o (stepSleep rd r' o) (runAttempts cfg r' rd (nextRq rd q i o) (i + 1) rest)).attempts.getLast?
+            = (runAttempts cfg r' rd (nextRq rd q i o) (i + 1) rest).attempts.getLast? := by
         intro res hres hne
-        have := run_attempts_ne_nil cfg r' m rest (by rw [hres]; exact hne)
+        have := run_attempts_ne_nil cfg r' rd (nextRq rd q i o) (i + 1) rest (by rw [hres]; exact hne)
         simp only [Run.cons]
-        cases hl : (runAttempts cfg r' m rest).attempts with
+        cases hl : (runAttempts cfg r' rd (nextRq rd q i o) (i + 1) rest).attempts with
         | nil => exact absurd hl this
         | cons x xs => simp [List.getLast?_cons_cons]
       rw [h]
@@ -415,23 +681,97 @@ theorem C04_exhaustion_surface (cfg : Cfg) (r : Retry) (m : Str) (script : List 
       · intro c hc
         simp only [Run.cons] at hc
         obtain ⟨a, ha, hc', hros⟩ := ih1 c hc
-        exact ⟨a, by rw [hlast _ hc (by simp)]; exact ha, hc', by rw [← hsame.raiseOnStatus]; exact hros⟩
-      · intro st hst
+        refine ⟨a, by rw [hlast _ hc (by simp)]; exact ha, hc', fun hne => ?_⟩
+        have := hros hne
+        split at this
+        · rename_i hf; simp only [hf, if_true]; exact hror this
+        · rename_i hf; simp only [hf]; rw [← hsame.raiseOnStatus]; exact this
+      · intro k st hst
         simp only [Run.cons] at hst
-        obtain ⟨a, ra, ha, ho⟩ := ih2 st hst
+        obtain ⟨a, ra, ha, ho⟩ := ih2 k st hst
         exact ⟨a, ra, by rw [hlast _ hst (by simp)]; exact ha, ho⟩
       · intro e he
         simp only [Run.cons] at he
         obtain ⟨a, ha, h1, h2⟩ := ih3 e he
         exact ⟨a, by rw [hlast _ he (by simp)]; exact ha, h1, h2⟩
 
-example : (runAttempts ⟨false⟩ { Retry.default with total := .num 1, statusForcelist := [500], raiseOnStatus := false } GET
-    [.response 500 none, .response 500 none, .response 200 none]).result = .response 500 := by decide
-example : (runAttempts ⟨false⟩ { Retry.default with total := .num 1, statusForcelist := [500] } GET
+example : (runAttempts ⟨false⟩ { Retry.default with total := .num 1, statusForcelist := [500], raiseOnStatus := false }
+    true ⟨GET, 0, false⟩ 0 [.response 500 none, .response 500 none, .response 200 none]).result = .response 1 500 := by
+  decide
+example : (runAttempts ⟨false⟩ { Retry.default with total := .num 1, statusForcelist := [500] } true ⟨GET, 0, false⟩ 0
     [.response 500 none, .response 500 none, .response 200 none]).result = .maxRetry (.response (.specific 500)) := by
   decide
-example : (runAttempts ⟨false⟩ { Retry.default with total := .num 0 } GET
+example : (runAttempts ⟨false⟩ { Retry.default with total := .num 0 } true ⟨GET, 0, false⟩ 0
     [.readError .timeout]).result = .maxRetry (.error (.plain .readTimeout)) := by decide
+example : (runAttempts ⟨false⟩ { Retry.default with redirect := .num 1 } true ⟨GET, 0, false⟩ 0
+    [.located 302 none, .located 302 none]).result = .maxRetry (.response .tooManyRedirects) := by decide
+example : (runAttempts ⟨false⟩ { Retry.default with redirect := .num 1, raiseOnRedirect := false } true ⟨GET, 0, false⟩ 0
+    [.located 302 none, .located 302 none]).result = .response 1 302 := by decide
+
+/-- the response `urlopen` returns is the reply to the LAST attempt — the response object of attempt
+`i + (number of attempts − 1)`, i.e. the script entry at index `number of attempts − 1`, untouched —
+whether it is returned as a normal result or on exhaustion with `raise_on_status=False` /
+`raise_on_redirect=False` -/
+theorem C04_returned_is_last_reply (cfg : Cfg) (r : Retry) (rd : Bool) (q : Rq) (i : Nat)
+    (script : List Outcome) (k st : Nat) (h : (runAttempts cfg r rd q i script).result = .response k st) :
+    k + 1 = i + (runAttempts cfg r rd q i script).attempts.length ∧
+    ∃ o ra, script[(runAttempts cfg r rd q i script).attempts.length - 1]? = some o ∧
+      respOf o = some ⟨st, ra⟩ := by
+  induction script generalizing r q i with
+  | nil => simp [runAttempts] at h
+  | cons o rest ih =>
+    cases run_cases cfg r rd q i o rest with
+    | returned st' ra ho hw hr =>
+      rw [hr] at h ⊢
+      simp only [Run.stop, Result.response.injEq] at h
+      obtain ⟨rfl, rfl⟩ := h
+      exact ⟨by simp [Run.stop], o, ra, by simp [Run.stop], ho⟩
+    | raised x hw hi hr =>
+      rw [hr] at h ⊢
+      simp only [Run.stop] at h ⊢
+      cases x with
+      | reraise e => simp [stopResult] at h
+      | maxRetry c =>
+        simp only [stopResult] at h
+        cases hresp : respOf o with
+        | none => simp [hresp] at h
+        | some rs =>
+          simp only [hresp] at h
+          by_cases hcond : (if follows rd o = true then r.raiseOnRedirect else r.raiseOnStatus) = true
+          · simp [hcond] at h
+          · simp only [hcond] at h
+            cases h
+            exact ⟨by simp, o, rs.retryAfter, by simp, hresp⟩
+    | again r' hw hi hr =>
+      rw [hr] at h ⊢
+      simp only [Run.cons] at h ⊢
+      obtain ⟨h1, o', ra, h2, h3⟩ := ih r' (nextRq rd q i o) (i + 1) h
+      have hne := run_attempts_ne_nil cfg r' rd (nextRq rd q i o) (i + 1) rest (by rw [h]; simp)
+      have hpos : 0 < (runAttempts cfg r' rd (nextRq rd q i o) (i + 1) rest).attempts.length :=
+        List.length_pos_iff.2 hne
+      refine ⟨by simp only [List.length_cons]; omega, o', ra, ?_, h3⟩
+      simp only [List.length_cons, Nat.add_sub_cancel]
+      obtain ⟨n, hn⟩ := Nat.exists_eq_succ_of_ne_zero (by omega : (runAttempts cfg r' rd (nextRq rd q i o) (i + 1) rest).attempts.length ≠ 0)
+      rw [hn] at h2 ⊢
+      simpa using h2
+
+/-- at the entry point (`i = 0`): the index of the returned reply in the script is the number of
+attempts − 1 -/
+theorem C04_urlopen_returns_last_reply (cfg : Cfg) (dflt arg : Arg) (rd : Bool) (m : Str) (body : Bool)
+    (script : List Outcome) (k st : Nat)
+    (h : (urlopen cfg dflt arg rd m body script).result = .response k st) :
+    k + 1 = (urlopen cfg dflt arg rd m body script).attempts.length ∧
+    ∃ o ra, script[k]? = some o ∧ respOf o = some ⟨st, ra⟩ := by
+  unfold urlopen at h ⊢
+  obtain ⟨h1, o, ra, h2, h3⟩ := C04_returned_is_last_reply cfg _ rd _ 0 script k st h
+  refine ⟨by omega, o, ra, ?_, h3⟩
+  have : k = (runAttempts cfg (policyOf dflt arg rd) rd ⟨m, 0, body⟩ 0 script).attempts.length - 1 := by omega
+  rw [this]
+  exact h2
+
+example : (urlopen ⟨false⟩ .none (.retry { Retry.default with total := .num 2, statusForcelist := [503], raiseOnStatus := false })
+    true GET false [.response 503 none, .response 503 none, .response 503 none, .response 200 none]).result =
+      .response 2 503 := by decide
 
 /-! ## the caller's object -/
 
